@@ -195,6 +195,7 @@ impl AsyncSeek for ASrc {
 #[derive(Clone, Copy, Debug, PartialEq)]
 enum ACall {
     Read(usize),
+    ReadAfterHeader(usize),
     Write(usize),
     Flush,
     Shutdown,
@@ -215,6 +216,17 @@ fn a_call<T: AsyncRead + AsyncWrite + AsyncBufRead + AsyncSeek + Unpin>(t: &mut 
             match Pin::new(t).poll_read(&mut cx, &mut rb) {
                 Poll::Pending => "Pending".into(),
                 Poll::Ready(Ok(())) => format!("Ok {:?}", rb.filled()),
+                Poll::Ready(Err(e)) => format!("Err({:?})", e.kind()),
+            }
+        }
+        ACall::ReadAfterHeader(n) => {
+            // the caller's buffer already holds two bytes (read_exact over short reads, a header)
+            let mut store = vec![0u8; n + 2];
+            let mut rb = ReadBuf::new(&mut store);
+            rb.put_slice(b"hd");
+            match Pin::new(t).poll_read(&mut cx, &mut rb) {
+                Poll::Pending => "Pending".into(),
+                Poll::Ready(Ok(())) => format!("Ok {:?}", &rb.filled()[2..]),
                 Poll::Ready(Err(e)) => format!("Err({:?})", e.kind()),
             }
         }
@@ -337,7 +349,7 @@ fn fin(i: usize) -> ProgressFinish {
 pub fn run(tier: Tier, shard: Shard, stats: &mut Stats, case: &mut u64) {
     let depth = if tier == Tier::Quick { 3 } else { 4 };
     let families: Vec<(&str, Vec<ACall>)> = vec![
-        ("AsyncRead", vec![ACall::Read(3), ACall::Read(0), ACall::Read(30)]),
+        ("AsyncRead", vec![ACall::Read(3), ACall::Read(0), ACall::Read(30), ACall::ReadAfterHeader(3)]),
         ("AsyncWrite", vec![ACall::Write(3), ACall::Write(0), ACall::Flush, ACall::Shutdown]),
         ("AsyncBufRead", vec![ACall::FillBuf, ACall::Consume(0), ACall::Consume(3), ACall::ConsumeAll, ACall::Read(3)]),
         ("AsyncSeek", vec![ACall::Seek(7), ACall::Complete, ACall::Read(3)]),
